@@ -121,7 +121,7 @@ def gen_case(draw):
                   'tstart': draw(st.one_of(st.just(0.0), finite(0.0, 1e12))),
                   'sumtim': draw(st.one_of(st.just(0.0), finite(0.0, 1e15), st.just(1.5e100)))}
     return {'k': 'gen', 'blocks': blocks, 'nv': nv, 'pass_nv': (nv > 4) or draw(st.booleans()),
-            'check': check, 'toughreact': toughreact, 'timing': timing, 'reset': draw(st.booleans()),
+            'check': check, 'toughreact': toughreact, 'timing': timing, 'reset': draw(st.booleans()), 'prewrite': draw(st.sampled_from([None, None, 'reset', 'keep'])),
             'style': draw(st.sampled_from(['E', 'D', 'e'])),
             'reuse': draw(st.sampled_from([None, None, 'TOUGH2', 'TOUGHREACT']))}
 
@@ -231,7 +231,13 @@ def run_gen(case, R):
     f1, f2, f3 = (os.path.join(R.tmp, n) for n in ('a.incon', 'b.incon', 'c.incon'))
     # leg 1: lib -> lib
     with R.lib('write'):
-        inc = build(case); inc.write(f1, reset=case['reset'])
+        inc = build(case)
+        if case.get('prewrite'):
+            # call history on the writing side: the same set was already written once (elsewhere, with or without
+            # reset); that must not change what the object is, nor what it writes now
+            R.label('history:written-before-with-' + case['prewrite'])
+            inc.write(os.path.join(R.tmp, 'earlier.incon'), reset=(case['prewrite'] == 'reset'))
+        inc.write(f1, reset=case['reset'])
     reuse = case.get('reuse')
     with R.lib('read'):
         if reuse:
